@@ -506,7 +506,27 @@ func (pc *PathConds) walk(f *Fn, list []ast.Stmt, c *Formula) (*Formula, error) 
 				out = fOr(out, rest)
 			}
 			c = out
-		case *ast.ForStmt, *ast.RangeStmt, *ast.SelectStmt, *ast.LabeledStmt:
+		case *ast.ForStmt, *ast.RangeStmt:
+			// a loop that cannot leave the function or jump out of an enclosing construct is an opaque simple statement
+			escapes := false
+			ast.Inspect(st, func(n ast.Node) bool {
+				switch x := n.(type) {
+				case *ast.ReturnStmt:
+					escapes = true
+				case *ast.BranchStmt:
+					if x.Tok == token.GOTO || x.Label != nil {
+						escapes = true
+					}
+				case *ast.FuncLit:
+					return false
+				}
+				return true
+			})
+			if escapes {
+				return nil, fmt.Errorf("%T with a return/goto inside at %s is outside the structured loop-free subset", st, f.Pkg.Fset.Position(st.Pos()))
+			}
+			pc.Cond[st] = c
+		case *ast.SelectStmt, *ast.LabeledStmt:
 			return nil, fmt.Errorf("%T at %s is outside the structured loop-free subset", st, f.Pkg.Fset.Position(st.Pos()))
 		case *ast.BranchStmt:
 			return nil, fmt.Errorf("branch statement at %s is outside the subset", f.Pkg.Fset.Position(st.Pos()))
@@ -520,6 +540,39 @@ func (pc *PathConds) walk(f *Fn, list []ast.Stmt, c *Formula) (*Formula, error) 
 		}
 	}
 	return c, nil
+}
+
+// HoldsAtLenient is HoldsAt that ignores guards it cannot evaluate (atoms outside the table are assumed satisfiable):
+// it answers "can n be reached under env for some value of the unbound atoms".
+func HoldsAtLenient(f *Fn, n ast.Node, env *Env) bool {
+	for _, ft := range FactsAt(f, n) {
+		if ft.Expr != nil {
+			v, k := Eval(f, ft.Expr, env)
+			if k && v.IsBool && v.B != ft.Truth {
+				return false
+			}
+		} else if ft.Tag != nil {
+			t, k := Eval(f, ft.Tag, env)
+			if !k {
+				continue
+			}
+			in, all := false, true
+			for _, ve := range ft.Vals {
+				v, k2 := Eval(f, ve, env)
+				if !k2 {
+					all = false
+					continue
+				}
+				if v == t {
+					in = true
+				}
+			}
+			if all && in != ft.Truth {
+				return false
+			}
+		}
+	}
+	return true
 }
 
 // Outcome determines which return statement of a loop-free structured function is taken under env.
